@@ -21,7 +21,7 @@
 (* every request-level schedule of them; otherwise use -simulate.          *)
 (***************************************************************************)
 EXTENDS Referrers, Json
-CONSTANTS Modes, Caches, Pages, TagDels, SubjSel, Spells, Dopts, Script, SerialPrefix, ObsPolicy
+CONSTANTS Modes, Caches, Pages, TagDels, SubjSel, Spells, Dopts, Script, SerialPrefix, ObsPolicy, EmitOnly
 VARIABLES hist, turn, obsI, needq, fetched, lockq
 gvars == <<dvars, hist, turn, obsI, needq, fetched, lockq>>
 
@@ -38,6 +38,9 @@ ScriptDD3 == << <<"put", "a1">>, <<"put", "a2">>, <<"put", "a3">>, <<"del", "a1"
 ScriptDDD == << <<"put", "a1">>, <<"put", "a2">>, <<"put", "a3">>, <<"del", "a1">>, <<"del", "a2">>, <<"del", "a3">> >>
 ScriptPD == << <<"put", "a1">>, <<"del", "a1">>, <<"put", "a2">> >>
 ScriptPDP == << <<"put", "a1">>, <<"put", "a2">>, <<"del", "a1">>, <<"put", "a3">> >>
+\* three updates of one subject overlapping, pushes and deletes mixed
+ScriptMix1 == << <<"put", "a3">>, <<"put", "a1">>, <<"put", "a2">>, <<"del", "a3">> >>
+ScriptMix2 == << <<"put", "a1">>, <<"put", "a2">>, <<"del", "a1">>, <<"del", "a2">>, <<"put", "a3">> >>
 \* pushes only (the lock of referrerPut), re-push of the same artifact
 ScriptPP == << <<"put", "a1">>, <<"put", "a2">>, <<"put", "a1">> >>
 ScriptPPP == << <<"put", "a1">>, <<"put", "a2">>, <<"put", "a3">> >>
@@ -47,20 +50,22 @@ FilterSeq == <<"none", "t1", "t2", "x", "y", "k", "sa", "sd", "none">>
 ObsSeq == [i \in 1..(Len(SubjSeq) * Len(FilterSeq)) |->
              <<SubjSeq[((i - 1) \div Len(FilterSeq)) + 1], FilterSeq[((i - 1) % Len(FilterSeq)) + 1]>>]
 
-\* can p go on by itself after this step (primed state)?
-CanLocal(p) == /\ pc'[p] # "idle" /\ pc'[p] \notin ReqPcs
-               /\ (pc'[p] = "p_lock" /\ LockPut) => mu' = ""
-               /\ pc'[p] = "d_lock" => mu' = ""
 \* Go hands a contended mutex to its waiters in arrival order when nobody else is running (the gate
-\* parks everybody else), so the generator wakes blocked goroutines first-come first-served and
-\* before anything else moves; (D) itself lets any waiter (or a newcomer) win.
+\* parks everybody else), so the generator wakes blocked goroutines first-come first-served (per lock
+\* object) and before anything else moves; (D) itself lets any waiter (or a newcomer) win.
 NeedsLock(l) == (l = "p_lock" /\ LockPut) \/ l = "d_lock"
+\* p stands in front of a mutex somebody else holds (primed / unprimed state)
+BlockedN(p) == NeedsLock(pc'[p]) /\ Tgt(want', p) # "" /\ lkheld'[Tgt(want', p)] \notin {"", p}
+Free(p) == NeedsLock(pc[p]) /\ (Tgt(want, p) = "" \/ lkheld[Tgt(want, p)] = "")
+\* can p go on by itself after this step (primed state)?
+CanLocal(p) == pc'[p] # "idle" /\ pc'[p] \notin ReqPcs /\ ~BlockedN(p)
 InQ(p) == \E i \in 1..Len(lockq) : lockq[i] = p
 Pass(p) == /\ turn' = IF CanLocal(p) THEN p ELSE ""
-           /\ lockq' = IF NeedsLock(pc'[p]) /\ mu' # "" /\ mu' # p /\ ~InQ(p) THEN Append(lockq, p)
-                        ELSE IF mu' = p /\ InQ(p) THEN SelectSeq(lockq, LAMBDA x : x # p)
+           /\ lockq' = IF BlockedN(p) /\ ~InQ(p) THEN Append(lockq, p)
+                        ELSE IF InQ(p) /\ ~BlockedN(p) THEN SelectSeq(lockq, LAMBDA x : x # p)
                         ELSE lockq
-WakeDue == mu = "" /\ lockq # <<>>
+WakeDue == \E i \in 1..Len(lockq) : Free(lockq[i])
+FirstFree == lockq[CHOOSE i \in 1..Len(lockq) : Free(lockq[i]) /\ \A j \in 1..(i - 1) : ~Free(lockq[j])]
 Rec(e) == hist' = Append(hist, e)
 Nth == MaxOps - left + 1
 
@@ -88,7 +93,7 @@ GRel(p) ==
   /\ UNCHANGED <<obsI, needq, fetched>>
 
 GWake(p) ==
-  /\ turn = "" /\ obsI = 0 /\ pc[p] \in LockPcs /\ ~Frozen /\ lockq # <<>> /\ p = Head(lockq)
+  /\ turn = "" /\ obsI = 0 /\ pc[p] \in LockPcs /\ ~Frozen /\ WakeDue /\ p = FirstFree
   /\ LocalStep(p)
   /\ Rec([t |-> "wake", p |-> p])
   /\ Pass(p)
@@ -141,5 +146,7 @@ GNext ==
 GSpec == GInit /\ [][GNext]_gvars
 
 Terminal == left = 0 /\ AllIdle /\ ~needq /\ obsI = 0 /\ turn = ""
-Emit == Terminal => PrintT(<<"SCN", ToJson([conf |-> conf, steps |-> hist])>>)
+\* EmitOnly = "bad": print only the schedules after which the fall-back tag is wrong in THIS variant of
+\* the design (used with the defective lock styles: every printed schedule is one the defect needs)
+Emit == (Terminal /\ (EmitOnly = "bad" => ~TagExact)) => PrintT(<<"SCN", ToJson([conf |-> conf, steps |-> hist])>>)
 =============================================================================
